@@ -1,7 +1,7 @@
 \* witness: the code as it is must violate BudgetMatches at call level (init error after budget.allocate);
 \* clear() is the repaired one here so that this is the only deviation
 CONSTANTS Threads = {t1, t2}  KA = {k1, k2}  KB = {}  Cap = 2  MaxCalls = 2  MaxHeld = 2  Fine = FALSE  InitMayFail = TRUE
-          BudgetPages = 3  Ballast = 30  ClearKeepsPinned = TRUE  ReleaseOnInitError = FALSE
+          BudgetPages = 3  Ballast = 30  ClearKeepsPinned = TRUE  ClearCountsUnderLock = TRUE  ReleaseOnInitError = FALSE
 CONSTANT Keys <- KeysAll  ShardOf <- ShardsOneTwo
 SYMMETRY Sym
 SPECIFICATION Spec
